@@ -211,3 +211,25 @@ def rule_flag_default(ctx, r, func_key, flag, why):
     default = const(kw.get("default"), False)
     r.check(is_flag is True and default in (False, None), con, f"{flag} is an on/off flag that is off unless given",
             f"{flag} is declared with is_flag={is_flag}, default={default}: {why}", f"{fn.module.relpath}:{opt.lineno}")
+
+
+
+def rule_factory_default(ctx, r, func_key, param, want, why):
+    """A backend factory's keyword default (what applies when the project configuration does not set it) is the documented one."""
+    idx = ctx.index
+    fn = idx.func(func_key)
+    a = fn.node.args
+    names = [x.arg for x in a.posonlyargs + a.args]
+    dmap = dict(zip(names[len(names) - len(a.defaults):], a.defaults))
+    for kwa, d in zip(a.kwonlyargs, a.kw_defaults):
+        if d is not None:
+            dmap[kwa.arg] = d
+    con = f"{fn.module.relpath}::{fn.qual}::{param}-default"
+    if param not in dmap:
+        r.violation(con, f"the factory has no default for `{param}` (an unset configuration key would make backend creation fail)", fn.where)
+        return
+    try:
+        got = ctx.ev.eval(dmap[param], fn.module)
+    except Exception:
+        got = "?"
+    r.check(got == want and type(got) is type(want), con, f"`{param}` defaults to {want!r}", f"`{param}` defaults to {got!r} instead of {want!r}: {why}", fn.where)
